@@ -38,6 +38,12 @@ def run(tier):
         acc = ["ethos-u65-512", "ethos-u65-512", "ethos-u55-128", "ethos-u65-256"][rep % 4]
         extra = ["--arena-cache-size", "20000"] if rep % 4 == 2 else []
         jobs.append({"family": "siamese:big", "seed": "c02s-%d-%d" % (vlib.seed(), rep), "args": ["--accelerator-config", acc] + extra, "capture": True})
+    # every shape / permutation of TRANSPOSE (swapped OFM strides), and mixed 16 / 8-bit cascades under SRAM pressure
+    for rep in range(8 if tier == "quick" else 200):
+        jobs.append({"family": "single:transpose_c", "seed": "c02t-%d-%d" % (vlib.seed(), rep), "args": compiles.config_args(rm), "capture": True})
+    for rep in range(3 if tier == "quick" else 60):
+        jobs.append({"family": "narrowing_chain", "seed": "c02n-%d-%d" % (vlib.seed(), rep),
+                     "args": ["--accelerator-config", "ethos-u55-128", "--arena-cache-size", str([80000, 90000, 75000][rep % 3])], "capture": True})
     jobs = compiles.corpus_jobs() + jobs
     results = compiles.run_all(jobs, timeout=900)
     programs = 0
